@@ -489,7 +489,15 @@ func rulesC04(w *World, r *Report) {
 	// R4 late-bound slices
 	nA := 0
 	for _, fn := range w.SrcFuncs() {
-		if len(callsTo(fn, decReg)) == 0 {
+		// the container readers and the function literals they write (the append may
+		// sit in the store closure handed to a shared element loop)
+		registers := false
+		for f := fn; f != nil; f = f.Parent() {
+			if len(callsTo(f, decReg)) > 0 {
+				registers = true
+			}
+		}
+		if !registers {
 			continue
 		}
 		for _, cs := range w.callSitesIn(fn) {
@@ -498,9 +506,39 @@ func rulesC04(w *World, r *Report) {
 			}
 			nA++
 			ok := false
+			isChange := func(c2 *ssa.Call) bool {
+				return c2.Call.StaticCallee() != nil && fnName(c2.Call.StaticCallee()) == "(*_refHolder).change" && c2.Block() == cs.call.Block()
+			}
 			for _, ref := range *cs.call.Referrers() {
-				if c2, isC := ref.(*ssa.Call); isC && c2.Call.StaticCallee() != nil && fnName(c2.Call.StaticCallee()) == "(*_refHolder).change" && c2.Block() == cs.call.Block() {
+				if c2, isC := ref.(*ssa.Call); isC && isChange(c2) {
 					ok = true
+				}
+				// `v = reflect.Append(v, x); holder.change(v)` with v a captured variable:
+				// the appended slice is stored into the variable's cell and read back for
+				// the call, nothing writing the cell in between
+				st, isSt := ref.(*ssa.Store)
+				if !isSt || st.Val != ssa.Value(cs.call) || st.Block() != cs.call.Block() {
+					continue
+				}
+				after := false
+				for _, in := range st.Block().Instrs {
+					if in == ssa.Instruction(st) {
+						after = true
+						continue
+					}
+					if !after {
+						continue
+					}
+					if s2, isS2 := in.(*ssa.Store); isS2 && s2.Addr == st.Addr {
+						break
+					}
+					if c2, isC := in.(*ssa.Call); isC && isChange(c2) {
+						for _, a := range c2.Call.Args {
+							if ld, isLd := a.(*ssa.UnOp); isLd && ld.Op == token.MUL && ld.X == st.Addr {
+								ok = true
+							}
+						}
+					}
 				}
 			}
 			r.add("C04.R4 grown slices are re-announced to their holder", fmt.Sprintf("%s · %s", fnName(fn), cs.key()), w.instrPos(cs.call), ok,
